@@ -169,10 +169,20 @@ func runStripe(b *built, opt checkOpts, inf core.Info, w, nRuns int, deadline ti
 			// The same unlisted death over and over (a hang costs a whole
 			// watchdog period each time): the verdict is settled, stop this
 			// stripe instead of paying for thousands of them.
-			if len(agg.findings[sig]) >= maxSameDeath && stripeKnown.match(opt.ID, sig) == nil {
+			same := len(agg.findings[sig])
+			if strings.Contains(sig, "/hang/") {
+				// hangs are named after the busiest frame, which varies: count them together
+				same = 0
+				for k, v := range agg.findings {
+					if strings.Contains(k, "/hang/") {
+						same += len(v)
+					}
+				}
+			}
+			if same >= maxSameDeath && stripeKnown.match(opt.ID, sig) == nil {
 				if !agg.stoppedEarly {
 					agg.stoppedEarly = true
-					fmt.Printf("NOTE: %d plans died with signature %s; the remaining plans of the stripes that meet it are not executed\n", len(agg.findings[sig]), sig)
+					fmt.Printf("NOTE: %d plans died like %s; the remaining plans of the stripes that meet it are not executed\n", same, sig)
 				}
 				mu.Unlock()
 				return
